@@ -355,7 +355,7 @@ def run_multimethod(ctx, ask, rng, nhist):
         kind = rng.choice(["real", "real", "binary", "perm", "subset"])
         ts = make_types(rng, kind, rng.randrange(1, 4))
         p = build_problem(ts)
-        nv = rng.randrange(1, 5)
+        nv = rng.choice([1, 2, 2, 3, 3, 4, 6, 7, 10, 13])
         vs = []
         while len(vs) < nv:
             v = zoo(rng, kind)
@@ -458,6 +458,25 @@ def run_multimethod(ctx, ask, rng, nhist):
             if isinstance(kids, str):
                 break
     ctx.count("multimethod_calls", ncalls)
+    # ---- the selection primitive on its own: n equally weighted variators, n = 1..20, draws at and next to the ends of
+    # uniform(0, sum(p)) (sum(p) is compensated, the running total in roulette is not: they differ in the last bit for some n)
+    for n in range(1, 21):
+        for rep in range(6 if nhist < 1000 else 40):
+            sr = ScriptedRandom(rng.randrange(2 ** 31), extreme=0.8)
+            alg = MMAlg()
+            with tracer.patched_random(sr):
+                mm = call_guarded(lambda: O.Multimethod(alg, [O.PM() for _ in range(n)], rng.choice([1, 100])))
+            inp0 = {"variators": n, "tape": sr.tape_wire()}
+            if isinstance(mm, str):
+                ctx.fail("operator-raises", inp0, mm, "a Multimethod", "operators.Multimethod.__init__ / _math.roulette")
+                ctx.failures[-1]["input_class"] = f"Multimethod:{mm}"
+                continue
+            if not (0 <= mm.next_variator < n):
+                ctx.fail("selected-variator-out-of-range", inp0, mm.next_variator, f"0..{n - 1}", "_math.roulette")
+            ask(f"mminit {n} {mm.update_frequency} {n} " + " ".join("1" for _ in range(n)) + " " + sr.tape_wire(),
+                lambda g, exp="ok 0 " + mm_state(mm), inp0=inp0: None if g == exp else ctx.disagree("Multimethod.__init__ model vs implementation (selected index / counter / probabilities / tape)", inp0, exp, g))
+            ctx.case(("roulette", n, sr.tape_wire()), n >= 2)
+    ctx.count("roulette_end_draws", 20 * (6 if nhist < 1000 else 40))
 
 
 def run(ctx, drv):
